@@ -37,6 +37,7 @@ const (
 	ReqSleep                           // n = duration
 	ReqRand                            // reply.n = 63 random bits from the run's PRNG
 	ReqSpawn                           // val = func() to run as a new task
+	ReqCondAdd                         // addr = cond; join the notify list (before unlocking L)
 	ReqCondWait                        // addr = cond; block until signalled
 	ReqCondSignal                      // addr = cond; n = 0 signal, 1 broadcast
 	ReqSelect                          // val = []selCase; n = 1 if there is a default; reply.n = idx<<2 | closedSend<<1 | ok, or -1
